@@ -89,8 +89,9 @@ def corpus():
         '#CT {"name": "Property(Int)", "how": "pickle2", "via": "class"}',
         '#CT {"name": "Property(Int)", "how": "deepcopy", "via": "class"}',
         "T|new 4;property 1 2 1 1",
-        # F14: copy.deepcopy shares the value of a trait without copy metadata
+        # F70 (fixed by 50c4e1f): copy.deepcopy shared the value of a trait without copy metadata
         "P|x v 0 - A n|set x l 1 i 1|deepcopy",
+        "P|x v 0 - A n;dn v 0 - D 1 T 4 d 0|set x d 1 s k l 1 i 1;add dn 0 s b r 2|deepcopy",
         # F15: detached container under Any is dropped by a deep clone
         "P|x v 0 - A n;l v 0 d L 0 9 T 0 l 0|set l l 1 i 1;alias x l|pickle 2;clone d",
         # F16: all traits transient => everything copied
@@ -368,13 +369,13 @@ def graph_class():
     mod = sys.modules[__name__]
 
     class Tree(HasTraits):
-        # every reference-holding trait says copy="deep" explicitly: `This` and `Dict` carry no copy metadata of
-        # their own, and copy.deepcopy() of a trait without it is finding F14 (covered by the P cases)
+        # natural metadata: `This` and `Dict` carry no copy metadata of their own (before 50c4e1f copy.deepcopy
+        # handed their values over by reference: finding F70)
         tag = Int()
         data = List(Int)
-        kids = List(This(copy="deep"), copy="deep")
-        parent = This(copy="deep")
-        index = Dict(Str, This(copy="deep"), copy="deep")
+        kids = List(This)
+        parent = This
+        index = Dict(Str, This)
     Tree.__module__ = __name__
     Tree.__qualname__ = "Tree"
     setattr(mod, "Tree", Tree)
